@@ -36,6 +36,99 @@ def run(R):
         r234(R)
     if R.want("C04.R5"):
         r5(R)
+    if R.want("C04.R6"):
+        r6(R)
+
+
+# --------------------------------------------------------------------------------------------------
+def r6(R):
+    """TensorMap caches the maps it derives from UBI (UB, mt, unitcell, B, U, euler) in self.maps and returns the cached map when the
+    name is present.  They describe the same lattice as UBI only if every one of them is deleted when UBI is replaced: the set of
+    derived names is computed from the property bodies (a property that stores add_map(<name>, f(...)) where f reads only UBI and other
+    derived maps), and compared with the names clear_cache deletes; clear_cache must run in the UBI setter and in add_map('UBI')."""
+    R.rule("C04.R6", "TensorMap: every map derived from UBI alone (computed from the property bodies: UB, mt, unitcell, B, U, euler) is "
+                     "deleted by clear_cache, and clear_cache runs whenever UBI is replaced (setter, add_map('UBI', ...))")
+    m = pyfacts.module(R, TM)
+    props = {}
+    for q, fn in m.funcs.items():
+        if not q.startswith("TensorMap.") or q.count(".") != 1:
+            continue
+        if not any(src(d) == "property" for d in fn.decorator_list):
+            continue
+        names = [c.args[0].value for c in ast.walk(fn) if isinstance(c, ast.Call) and src(c.func) == "self.add_map" and c.args
+                 and isinstance(c.args[0], ast.Constant)]
+        if not names:
+            continue
+        reads = set()
+        for a in ast.walk(fn):
+            if isinstance(a, ast.Attribute) and src(a.value) == "self" and isinstance(a.ctx, ast.Load):
+                reads.add(a.attr)
+            if isinstance(a, ast.Subscript) and src(a.value) == "self.maps" and isinstance(a.slice, ast.Constant):
+                reads.add(a.slice.value)
+        props[q.split(".")[1]] = (set(names), reads - {"maps", "keys", "add_map", "shape"} - set(names))
+    R.shape(len(props) >= 6, "C04.R6", TM, "TensorMap", "the cached properties (found %s)" % sorted(props))
+    derived = set()
+    changed = True
+    while changed:
+        changed = False
+        for pname, (names, reads) in props.items():
+            if pname not in derived and reads and reads <= ({"UBI"} | derived):
+                derived.add(pname)
+                changed = True
+    stored = set(n for pname in derived for n in props[pname][0])
+    R.shape({"UB", "mt", "unitcell", "B", "U"} <= stored, "C04.R6", TM, "TensorMap", "the maps derived from UBI alone (found %s)" % sorted(stored))
+    cc = m.nfunc("TensorMap.clear_cache")
+    deleted = set()
+    understood = True
+    for l in ast.walk(cc):
+        if isinstance(l, ast.For) and isinstance(l.iter, (ast.Tuple, ast.List, ast.Set)) and all(isinstance(e, ast.Constant) for e in l.iter.elts):
+            tgt = src(l.target)
+            dels = [d for d in ast.walk(l) if (isinstance(d, ast.Delete) and any(src(t) == "self.maps[%s]" % tgt for t in d.targets))
+                    or (isinstance(d, ast.Call) and src(d.func) == "self.maps.pop" and d.args and src(d.args[0]) == tgt)]
+            if dels:
+                deleted |= set(e.value for e in l.iter.elts)
+        if isinstance(l, ast.Delete):
+            for t in l.targets:
+                if isinstance(t, ast.Subscript) and src(t.value) == "self.maps" and isinstance(t.slice, ast.Constant):
+                    deleted.add(t.slice.value)
+        if isinstance(l, ast.Call) and src(l.func) == "self.maps.pop" and l.args and isinstance(l.args[0], ast.Constant):
+            deleted.add(l.args[0].value)
+        if isinstance(l, ast.Call) and src(l.func) == "self.maps.clear":
+            understood = False
+    R.shape(understood and bool(deleted), "C04.R6", TM, "TensorMap.clear_cache", "the names it deletes from self.maps")
+    for n in sorted(stored):
+        R.check(n in deleted, "C04.R6", TM, cc.lineno, "TensorMap.clear_cache", "'%s' deleted when UBI is replaced" % n,
+                "the cached map '%s' is computed from UBI (property %s) and returned from self.maps when present, but clear_cache does not delete it: "
+                "after the UBI map is replaced it still describes the old lattice, and everything computed from it (%s) disagrees with UBI" % (
+                    n, n, ", ".join(sorted(p_ for p_, (nm, rd) in props.items() if n in rd)) or "nothing else"))
+    st = [f for q, f in m.funcs.items() if q == "TensorMap.UBI" or q.startswith("TensorMap.UBI")]
+    setters = [f for f in ast.walk(m.cls("TensorMap")) if isinstance(f, ast.FunctionDef) and f.name == "UBI" and any(src(d) == "UBI.setter" for d in f.decorator_list)]
+    R.shape(len(setters) == 1, "C04.R6", TM, "TensorMap.UBI", "the UBI setter")
+    cfg = pyfacts.PyCFG(setters[0])
+    calls = [s_ for s_ in ast.walk(setters[0]) if isinstance(s_, ast.Expr) and isinstance(s_.value, ast.Call) and src(s_.value.func) == "self.clear_cache"]
+    ok = any(cfg.postdominates(cfg.node_of(c), cfg.entry) for c in calls)
+    R.check(ok, "C04.R6", TM, setters[0].lineno, "TensorMap.UBI.setter", "clear_cache() on every path of the setter",
+            "the derived maps are not cleared when UBI is assigned")
+    am = m.nfunc("TensorMap.add_map")
+    ua = ast.unparse(am)
+    calls = [s_ for s_ in ast.walk(am) if isinstance(s_, ast.Expr) and isinstance(s_.value, ast.Call) and src(s_.value.func) == "self.clear_cache"]
+    guards_ok = False
+    if calls:
+        cfa = pyfacts.PyCFG(am)
+        g = cfa.guards(cfa.node_of(calls[0]))
+        def covers(t, pol):
+            t_ = src(t).replace('"', "'")
+            if pol and t_ in ("name == 'UBI'", "'UBI' == name"):
+                return True
+            if pol and isinstance(t, ast.Compare) and len(t.ops) == 1 and isinstance(t.ops[0], ast.In) and src(t.left) == "name" \
+                    and isinstance(t.comparators[0], (ast.Tuple, ast.List, ast.Set)) and any(isinstance(e, ast.Constant) and e.value == "UBI" for e in t.comparators[0].elts):
+                return True
+            return None
+        res = [covers(t, pol) for t, pol in g]
+        R.shape(all(r is not None for r in res), "C04.R6", TM, "TensorMap.add_map", "the condition under which add_map clears the cache (%s)" % "; ".join(src(t) for t, _ in g))
+        guards_ok = True
+    R.check(bool(calls) and guards_ok, "C04.R6", TM, am.lineno, "TensorMap.add_map", "clear_cache() when name == 'UBI'",
+            "replacing the UBI map through add_map / tm['UBI'] = ... leaves the old derived maps in place")
 
 
 # --------------------------------------------------------------------------------------------------
